@@ -119,7 +119,7 @@ theorem bracket_step {c : Cfg} {s s' : State} {e : Ev} (h : Bracket s) (hs : ste
           rcases g with g | g <;> simp [g, TaskSt.active] at hm
         have := h m hm
         obtain ⟨_, _, hr⟩ := step_cbReturn.mp hw
-        rcases hr with ⟨_, rfl⟩ | ⟨_, rfl⟩ | ⟨_, _, rfl⟩ <;> simp [Walker.set, hmn, this]
+        rcases hr with ⟨_, rfl⟩ | ⟨_, rfl⟩ | ⟨_, _, rfl⟩ | ⟨_, _, rfl⟩ <;> simp [Walker.set, hmn, this]
       · simp at hs
     · simp at hs
 
@@ -127,5 +127,128 @@ theorem reach_bracket {c : Cfg} {s : State} (h : Reach c s) : Bracket s := by
   induction h with
   | init => intro n hn; simp [init, TaskSt.active] at hn
   | step _ hs ih => exact bracket_step ih hs
+
+/-! ### `W` workers -/
+
+theorem stepW_step {c : Cfg} {W : Nat} {s s' : State} {e : Ev} (h : stepW c W s e = some s') : step c s e = some s' := by
+  cases e <;> simp only [stepW] at h <;> try exact h
+  split at h
+  · exact h
+  · simp at h
+
+/-- every run with `W` workers is a run of the unbounded composition: all theorems over `Reach` apply -/
+theorem reachW_reach {c : Cfg} {W : Nat} {s : State} (h : ReachW c W s) : Reach c s := by
+  induction h with
+  | init => exact Reach.init
+  | step _ hs ih => exact Reach.step ih (stepW_step hs)
+
+/-- tasks exist only for selected nodes, so `onWorkers` / `commands` count all of them -/
+theorem task_only_selected {c : Cfg} (ok : CfgOK c) {s : State} (h : Reach c s) : ∀ n, s.task n ≠ .none → n ∈ c.sel := by
+  induction h with
+  | init => intro n hn; simp [init] at hn
+  | @step s e s' hr hs ih =>
+    have inv := reach_inv ok (reach_walker hr)
+    intro n hn
+    cases e <;> simp only [step] at hs
+    case walker e =>
+      split at hs
+      · simp at hs
+      · split at hs
+        · simp at hs; subst hs; exact ih n hn
+        · simp at hs
+    case cbReturn m r =>
+      split at hs
+      · split at hs
+        · simp at hs; subst hs; exact ih n hn
+        · simp at hs
+      · simp at hs
+    case submit m =>
+      split at hs <;> simp at hs
+      rename_i g; subst hs
+      by_cases hnm : n = m
+      · subst hnm
+        refine Classical.byContradiction fun hns => ?_
+        have := inv.nonSel n hns
+        rw [this] at g; exact absurd g.1 (by simp)
+      · simp [Walker.set, hnm] at hn; exact ih n hn
+    all_goals
+      split at hs <;> simp at hs
+      rename_i g; subst hs
+      rename_i m
+      by_cases hnm : n = m
+      · subst hnm; exact ih n (by simp_all)
+      · simp [Walker.set, hnm] at hn; exact ih n hn
+
+theorem countP_set_le {β : Type} (p : β → Bool) (f : Node → β) (n : Node) (v : β) :
+    ∀ (l : List Node), l.Nodup → l.countP (fun m => p (Walker.set f n v m)) ≤ l.countP (fun m => p (f m)) + 1 := by
+  intro l
+  induction l with
+  | nil => intro _; simp
+  | cons a l ih =>
+    intro hl
+    have ⟨ha, hl'⟩ := List.nodup_cons.mp hl
+    by_cases han : a = n
+    · subst han
+      have : l.countP (fun m => p (Walker.set f a v m)) = l.countP (fun m => p (f m)) := by
+        apply List.countP_congr
+        intro m hm
+        have : m ≠ a := fun e => ha (e ▸ hm)
+        simp [Walker.set, this]
+      simp only [List.countP_cons, this]
+      split <;> split <;> omega
+    · have := ih hl'
+      have hh : p (Walker.set f n v a) = p (f a) := by simp [Walker.set, han]
+      simp only [List.countP_cons, hh]
+      omega
+
+theorem countP_set_mono {β : Type} (p : β → Bool) (f : Node → β) (n : Node) (v : β) (hv : p v = true → p (f n) = true) (l : List Node) :
+    l.countP (fun m => p (Walker.set f n v m)) ≤ l.countP (fun m => p (f m)) := by
+  apply List.countP_mono_left
+  intro m _ hm
+  by_cases hmn : m = n
+  · subst hmn; simp [Walker.set] at hm; simpa using hv hm
+  · simpa [Walker.set, hmn] using hm
+
+/-- **the worker bound**: with `W` workers never more than `W` tasks are on a worker -/
+theorem onWorkers_le {c : Cfg} {W : Nat} (hsel : c.sel.Nodup) {s : State} (h : ReachW c W s) : onWorkers c s ≤ W := by
+  induction h with
+  | init => simp [onWorkers, init, TaskSt.onWorker]
+  | @step s e s' _ hs ih =>
+    cases e <;> simp only [stepW] at hs
+    case take n =>
+      split at hs
+      · rename_i hlt
+        simp only [step] at hs
+        split at hs <;> simp at hs
+        subst hs
+        have := countP_set_le TaskSt.onWorker s.task n (.busy false) c.sel hsel
+        simp only [onWorkers] at hlt ⊢
+        omega
+      · simp at hs
+    case walker e =>
+      simp only [step] at hs
+      split at hs
+      · simp at hs
+      · split at hs
+        · simp at hs; subst hs; exact ih
+        · simp at hs
+    case cbReturn m r =>
+      simp only [step] at hs
+      split at hs
+      · split at hs
+        · simp at hs; subst hs; exact ih
+        · simp at hs
+      · simp at hs
+    all_goals
+      simp only [step] at hs
+      split at hs <;> simp at hs
+      rename_i g; subst hs
+      refine Nat.le_trans (countP_set_mono TaskSt.onWorker s.task _ _ ?_ c.sel) ih
+      simp_all [TaskSt.onWorker]
+
+theorem commands_le_onWorkers (c : Cfg) (s : State) : commands c s ≤ onWorkers c s := by
+  apply List.countP_mono_left
+  intro n _ h
+  cases ht : s.task n <;> simp_all [TaskSt.inCommand, TaskSt.onWorker]
 
 end Grog.Sys
